@@ -41,12 +41,50 @@ _DEVNULL = io.StringIO()
 _LAST_EXC: list = []
 
 
+MEM_LIMIT = 1 << 30          # bytes the process may grow by while one request / parser call runs
+
+
 class Timeout(BaseException):
-    pass
+    """the watchdog fired: the time or the memory budget of one call is used up"""
+
+
+_WD = {"deadline": 0.0, "rss0": 0, "reason": None}
+
+
+def _rss() -> int:
+    try:
+        with open("/proc/self/statm") as fh:
+            return int(fh.read().split()[1]) * 4096
+    except Exception:
+        return 0
 
 
 def _alarm(signum, frame):
-    raise Timeout()
+    if time.perf_counter() >= _WD["deadline"]:
+        _WD["reason"] = "time"
+        raise Timeout()
+    if _rss() - _WD["rss0"] > MEM_LIMIT:
+        _WD["reason"] = "memory"
+        raise Timeout()
+
+
+def arm(limit: float):
+    """start the watchdog (wall clock `limit` seconds, memory growth MEM_LIMIT); → token for disarm()"""
+    _WD.update(deadline=time.perf_counter() + limit, rss0=_rss(), reason=None)
+    old = signal.signal(signal.SIGALRM, _alarm)
+    signal.setitimer(signal.ITIMER_REAL, 0.2, 0.2)
+    return old
+
+
+def disarm(old) -> None:
+    signal.setitimer(signal.ITIMER_REAL, 0)
+    signal.signal(signal.SIGALRM, old)
+
+
+def budget_text(limit: float) -> str:
+    if _WD["reason"] == "memory":
+        return f"grew by more than {MEM_LIMIT >> 20} MiB"
+    return f"within {limit:.0f} s"
 
 
 def world():
@@ -386,8 +424,7 @@ class Result:
 
 def run(client, method: str, url: str, headers: dict | None = None, limit: float = TIME_LIMIT) -> Result:
     del _LAST_EXC[:]
-    old = signal.signal(signal.SIGALRM, _alarm)
-    signal.setitimer(signal.ITIMER_REAL, limit)
+    old = arm(limit)
     t0 = time.perf_counter()
     try:
         with contextlib.redirect_stdout(_DEVNULL):      # EventFactory print()s unknown event names
@@ -401,8 +438,7 @@ def run(client, method: str, url: str, headers: dict | None = None, limit: float
         status, to = CLIENT_ERROR, False
         _LAST_EXC.append((type(e).__name__, "client", str(e)[:160]))
     finally:
-        signal.setitimer(signal.ITIMER_REAL, 0)
-        signal.signal(signal.SIGALRM, old)
+        disarm(old)
     dt = time.perf_counter() - t0
     return Result(status, dt, _LAST_EXC[-1] if _LAST_EXC else None, to)
 
@@ -425,7 +461,7 @@ def requested_codes(query: list) -> set:
 def violates(res: Result, query: list) -> str | None:
     """the property text: no 5xx other than a requested one, no unbounded run"""
     if res.timed_out:
-        return f"no answer within {TIME_LIMIT:.0f} s"
+        return f"no answer within {TIME_LIMIT:.0f} s (or the process grew by more than {MEM_LIMIT >> 20} MiB)"
     if res.status == CLIENT_ERROR:
         return f"exception outside the application's error handling: {res.exc}"
     if res.status >= 500 and res.status not in requested_codes(query):
